@@ -51,7 +51,33 @@ from .. import tlc
 EMBEDDINGS = dict(_EMB8)
 EMBEDDINGS["far"] = Emb("far", 1, 3 * 10 ** 6)               # 3000000.0, 3000001.0, ... (exact floats)
 EMBEDDINGS["farmilli"] = Emb("farmilli", F(1, 1000), 1000)   # 1000.0, 1000.001, 1000.002, ...
-ALL = list(_ALL8) + ["far", "farmilli"]
+
+
+class _MulEmb(Emb):
+    """step 0.1, offset 0, with every number produced by FLOAT ARITHMETIC (q * 0.1) instead of the correctly rounded
+    decimal: 3 * 0.1 = 0.30000000000000004, and the half of such a width differs from the centre 0.15 in the last
+    bit.  On a grid that straddles the origin the line 0 is then reached as +0.0 from one side and as -0.0 from the
+    other (select_box: round(-2.8e-17, 9) = -0.0): two floats that are == (one grid line for definecoords, one
+    dictionary key) but print differently."""
+
+    def coord(self, q):
+        return float(q) * 0.1
+
+    def length(self, q):
+        return float(q) * 0.1
+
+    def area(self, q):
+        return float(q) * 0.1 * 0.1
+
+    def rect(self, r):
+        x1, y1, x2, y2 = r[:4]
+        # centres as decimal literals (-0.15), sizes by multiplication (3 * 0.1): centre + size/2 = +2.8e-17 on one side
+        # of the line 0 and centre - size/2 = -2.8e-17 on the other
+        return [float(F(x1 + x2, 20)), float(F(y1 + y2, 20)), (x2 - x1) * 0.1, (y2 - y1) * 0.1]
+
+
+EMBEDDINGS["decmul"] = _MulEmb("decmul", F(1, 10))
+ALL = list(_ALL8) + ["far", "farmilli", "decmul"]
 EXACT = set(_EXACT8) | {"far"}
 
 VACUOUS = -10 ** 8          # a bound every shape meets: the cost constraint is a tautology and is not even posted
@@ -62,7 +88,7 @@ PUB = ("kind", "cells", "k", "den", "emb", "path", "plan", "proc", "alloc", "mod
 # carrier.factor per embedding (main() uses 10000): chosen so that the integer cell weights neither vanish (tiny)
 # nor overflow TLC's 32-bit integers (big)
 FACTOR = {"int": 10000, "flt": 10000, "half": 10000, "dec": 10000, "third": 10000, "off": 10000,
-          "big": 1, "tiny": 10 ** 8, "far": 10000, "farmilli": 10 ** 8}
+          "big": 1, "tiny": 10 ** 8, "far": 10000, "farmilli": 10 ** 8, "decmul": 10000}
 
 
 # ------------------------------------------------------------------------------------------------ real code
@@ -136,6 +162,10 @@ def _embed(case):
     den = case["den"]
     cells = [(emb.coord(c[0]), emb.coord(c[1]), emb.coord(c[2]), emb.coord(c[3]), c[4] / den)
              for c in case["cells"]]
+    if case["emb"] == "decmul":
+        # plain cell lists too: the grid line 0 is written -0.0 where it is the UPPER corner of a cell and 0.0 where it is
+        # the lower one (== for definecoords and every dictionary of the carrier, different as text)
+        cells = [(c[0], c[1], -0.0 if c[2] == 0 else c[2], -0.0 if c[3] == 0 else c[3], c[4]) for c in cells]
     x0, x1 = min(c[0] for c in case["cells"]), max(c[2] for c in case["cells"])
     y0, y1 = min(c[1] for c in case["cells"]), max(c[3] for c in case["cells"])
     # get_alloc(): Width / Height = the bounding box of the allocation
@@ -497,6 +527,13 @@ def random_cases(rng: random.Random, n: int, tier: str) -> list[dict]:
             xs.append(xs[-1] + rng.choice([1, 1, 1, 2, 3]))
         for _ in range(ny):
             ys.append(ys[-1] + rng.choice([1, 1, 1, 2, 3]))
+        straddle = rng.random() < 0.12
+        if straddle:
+            # the origin inside the grid, cells of width 3 on both sides of the lines x = 0 and y = 0: under the
+            # float-arithmetic embedding these lines are +0.0 for one neighbour and -0.0 for the other
+            xs = [-3, 0, 3] + [3 + i for i in range(1, max(1, nx - 1))]
+            ys = [-3, 0, 3] + [3 + j for j in range(1, max(1, ny - 1))]
+            nx, ny = len(xs) - 1, len(ys) - 1
         den = rng.choice([2, 2, 4, 10])
         # a blob: high occupancy inside a random union of a trunk and two arms, noise elsewhere
         ci, cj = rng.randrange(nx), rng.randrange(ny)
@@ -517,7 +554,7 @@ def random_cases(rng: random.Random, n: int, tier: str) -> list[dict]:
         ncell = nx * ny
         k = (rng.choice([1, 2, 3, 3, 4]) if ncell <= 9 else rng.choice([1, 2, 3, 3]) if ncell <= (12 if tier == "quick" else 16)
              else rng.choice([1, 2, 2]))
-        emb = rng.choice(ALL)
+        emb = "decmul" if straddle else rng.choice(ALL)
         path = "select_box" if rng.random() < 0.5 else "direct"
         fr = F(FACTOR[emb]) * EMBEDDINGS[emb].step ** 2
         best = _plan_best(cells, k, den, fr)
